@@ -14,7 +14,7 @@ import sys, os, json, subprocess, tempfile, shutil, threading, queue, collection
 
 VERIF = os.path.dirname(os.path.dirname(os.path.abspath(__file__)))
 REPO = '/repo'
-SITES = '/tmp/mutsites.json'
+SITES = os.environ.get('MUTSITES', '/tmp/mutsites.json')
 OUTDIR = os.path.join(VERIF, 'notes', 'mutcampaign')
 RESULTS = os.environ.get('MUTRES', os.path.join(OUTDIR, 'results.json'))
 ENV = dict(os.environ, PATH='/opt/veriftools/go1.26.8/bin:' + os.environ['PATH'], GOTOOLCHAIN='local', GOPROXY='off', GOFLAGS='-mod=readonly')
